@@ -134,6 +134,8 @@ func runC13(p *Prog, r *Result) {
 	checkEscapeAgreement(p, r, "R13e")
 	r.Rule("R13g", "in Quote every test of a decoded rune against utf8.RuneError is conjoined with a test of its width against 1 (a valid U+FFFD decodes to the same rune)", 2)
 	checkRuneErrorWidth(p, r, "R13g")
+	r.Rule("R13h", "every non-error return of Quote is the string itself, a builder's contents or single quotes around the string; the double-quote fallback's return is only reached through its escaping loop", 5)
+	checkQuoteReturns(p, r, "R13h")
 
 	fd := p.FuncDecl("syntax", "Quote")
 	if fd == nil || fd.Body == nil {
@@ -552,6 +554,8 @@ func runC13(p *Prog, r *Result) {
 }
 
 var c13Controls = []Control{
+	{Name: "double-quote-fast-path", Rule: "R13h", WantKey: "syntax.Quote#return", File: "syntax/quote.go",
+		Mutate: ctlReplaceAnywhere("\t// The string contains single quotes,\n\t// so fall back to double quotes.\n", "\tif !strings.ContainsAny(s, \"\\\"$`\") {\n\t\treturn \"\\\"\" + s + \"\\\"\", nil\n\t}\n")},
 	{Name: "runeerror-without-width", Rule: "R13g", WantKey: "with a width test", File: "syntax/quote.go",
 		Mutate: ctlReplaceAnywhere("r == utf8.RuneError && size == 1:", "r == utf8.RuneError:")},
 	{Name: "short-U-escape", Rule: "R13e", WantKey: "escape \\U width 6", File: "syntax/quote.go",
